@@ -30,6 +30,20 @@ type Options struct {
 	LoopBound   int // max times one back-edge may be taken on a path (0 = unlimited)
 	Trace       io.Writer
 	StopOnFirst bool
+	Known       []KnownFinding
+	Params      map[string]int
+}
+
+// KnownFinding identifies a recorded genuine defect: harness, a substring of
+// the violation message, and a predicate over named inputs. Violations inside
+// the predicate are printed as KNOWN-FINDING; the solver is asked again with
+// the predicate negated so that any other violation is still reported.
+type KnownFinding struct {
+	Property string
+	Harness  string
+	Msg      string
+	Pred     map[string]uint64
+	Text     string
 }
 
 func DefaultOptions() Options {
@@ -301,24 +315,80 @@ func (ex *Exec) model() map[string]interface{} {
 		}
 	}
 	m["@trail"] = append([]int(nil), ex.trail...)
+	for k, v := range ex.Params {
+		m["@param:"+k] = v
+	}
 	return m
 }
 
 func (ex *Exec) report(v *Violation) {
+	if v.Model == nil {
+		// violation on the current path: any model of the path condition is a witness
+		ex.findViolation(ex.C.True(), v.Kind, v.Msg, v.Where)
+		return
+	}
 	v.Trail = append([]int(nil), ex.trail...)
 	v.Harness = ex.harness
-	if v.Model == nil {
-		// concrete path: the model is whatever satisfies the path condition
-		if res, m := ex.solve(ex.pcCopy(), true); res == Sat {
-			v.Model = m
-		} else if res == Unsat {
-			return // unreachable
+	ex.Violations = append(ex.Violations, v)
+}
+
+// predTerm turns a known-finding predicate into a term over the inputs of this
+// path; ok=false if an input named by the predicate does not exist here.
+func (ex *Exec) predTerm(k KnownFinding) (*Term, bool) {
+	t := ex.C.True()
+	for name, val := range k.Pred {
+		var in *Input
+		for _, i := range ex.inputs {
+			if i.Name == name {
+				in = i
+				break
+			}
+		}
+		if in == nil {
+			return nil, false
+		}
+		if in.IsC {
+			t = ex.C.And(t, ex.C.Bool(uint64(in.Conc) == val))
+		} else if in.Term != nil {
+			t = ex.C.And(t, ex.C.Eq(in.Term, ex.C.Const(in.Term.Sort, val)))
 		} else {
-			ex.inconclusive("violation on a path whose feasibility is unknown: " + v.Msg)
-			return
+			return nil, false
 		}
 	}
-	ex.Violations = append(ex.Violations, v)
+	return t, true
+}
+
+// findViolation asks the solver for a witness of pc ∧ neg. Witnesses inside a
+// known finding are recorded as such; the query is repeated outside all known
+// predicates.
+func (ex *Exec) findViolation(neg *Term, kind, msg, where string) {
+	if ex.replaying() {
+		return
+	}
+	excl := ex.C.True()
+	for _, k := range ex.Known {
+		if k.Harness != ex.harness || !strings.Contains(msg, k.Msg) {
+			continue
+		}
+		pt, ok := ex.predTerm(k)
+		if !ok {
+			continue
+		}
+		res, model := ex.solve(append(ex.pcCopy(), neg, pt), true)
+		if res == Sat {
+			ex.Violations = append(ex.Violations, &Violation{Kind: kind, Msg: msg, Where: where, Model: model,
+				Trail: append([]int(nil), ex.trail...), Harness: ex.harness, Known: k.Text, KnownProp: k.Property})
+		}
+		excl = ex.C.And(excl, ex.C.Not(pt))
+	}
+	res, model := ex.solve(append(ex.pcCopy(), neg, excl), true)
+	switch res {
+	case Sat:
+		ex.Violations = append(ex.Violations, &Violation{Kind: kind, Msg: msg, Where: where, Model: model,
+			Trail: append([]int(nil), ex.trail...), Harness: ex.harness})
+	case Unknown:
+		ex.inconclusive(kind + " '" + msg + "' at " + where + ": solver answered unknown (" + ex.S.LastErr + ")")
+	}
 }
 
 func (ex *Exec) inconclusive(msg string) {
